@@ -106,6 +106,21 @@ Proof.
 Qed.
 Print Assumptions C08_submit_gap_free.
 
+(* progress of the hand-over: while the runner is alive and not inside queue_next_block, an
+   accepted block that is neither submitted nor persisted is always submittable next — the
+   persister never waits for a number the queue will not produce. *)
+Theorem C08_submit_enabled : forall c m, reachable c m -> alive m = true -> parked m = false ->
+  submit_target m <= qnext (ms m) /\
+  (submit_target m < qnext (ms m) ->
+   exists b, sblock (cache (ms m)) (submit_target m) = Some b /\ bnum b = submit_target m /\
+             log (mstep c m Submit) = (b, pnext (ms m)) :: log m).
+Proof.
+  intros c m H Ha Hp. pose proof (reachable_minv c m H) as I. split.
+  - exact (submit_target_le c m I).
+  - exact (submit_enabled c m I Ha Hp).
+Qed.
+Print Assumptions C08_submit_enabled.
+
 (* readable_until_pruned (1): a number reported by queued() is answered from the cache with
    the verified block of that number, or falls through to persistent storage only inside
    the durable range the store has seen (where the interface promises the block). *)
